@@ -78,7 +78,7 @@ type ReplaySummary struct {
 	Divergences []Divergence `json:"divergences"`
 }
 
-func replayStream(path string, seed int64) ReplaySummary {
+func replayStream(path string, seed int64, restartEvery int) ReplaySummary {
 	rng := rand.New(rand.NewSource(seed))
 	f, err := os.Open(path)
 	if err != nil {
@@ -108,7 +108,10 @@ func replayStream(path string, seed int64) ReplaySummary {
 			a.Commit()
 		case "begin":
 			// between blocks: restart and non-consensus calls on the committed state
-			if rng.Intn(6) == 0 {
+			if !nodekeeper.VerifSharesBeforeModified().IsZero() {
+				sum.ResidueSeen++
+			}
+			if rng.Intn(restartEvery) == 0 {
 				a, _ = newApp(db, home)
 				nodekeeper.VerifResetProcessGlobals()
 				sum.Restarts++
